@@ -108,8 +108,8 @@ def valid_program(rng, sim, d, cutoff):
             g = G.gate(rng, str(rng.choice(pool)), d, active_scale=0.2, disp_scale=0.3, cutoff=cutoff)
             if g is None:
                 continue
-            if g["t"] == "Attenuator" and sim == "purefock":
-                continue
+            if g["t"] == "Attenuator" and sim == "purefock" and rng.random() < 0.5:
+                continue  # kept in every second draw: everything after it fails on the unchanged tree (known finding)
             ins.append(g)
         shots = None
         r = rng.random()
@@ -226,7 +226,13 @@ def run_valid(ctx, pq, doc, origin):
                 ctx.c["skipped_zero_probability_branch"] += 1
                 return
             where = _innermost_piquasso_frame(e)
-            ctx.viol("valid-program-refused:%s:%s:%s" % (doc["sim"], type(e).__name__, where),
+            mech = "valid-program-refused:%s:%s:%s" % (doc["sim"], type(e).__name__, where)
+            if (doc["sim"] == "purefock" and isinstance(e, AttributeError) and "'FockState' object has no attribute" in str(e)
+                    and any(x["t"] == "Attenuator" for x in doc["ins"][:-1])):
+                # symptom of one known defect, whatever instruction happens to follow: the Attenuator turns the pure state
+                # into a FockState and the pure-state steps of every later instruction fail on it
+                mech = "valid-program-refused:purefock:instruction-after-attenuator"
+            ctx.viol(mech,
                      "valid %s program (d=%d, cutoff=%s) raised %s at %s after %d steps: %s" % (
                          doc["sim"], doc["d"], doc["config"].get("cutoff"), type(e).__name__, where, sc.steps, str(e)[:200]),
                      case)
